@@ -572,6 +572,15 @@ func (b *BaseStore) Load(ctx context.Context, amount int) error {
 				return
 			}
 
+			// an interrupted fetch returns what it had read so far without an error: merging that
+			// would hide the missing ancestors from every later load, which excludes the entries
+			// already in the log from its fetch together with everything behind them
+			if ctxErr := ctx.Err(); ctxErr != nil {
+				span.AddEvent("store-head-loading-interrupted")
+				err = fmt.Errorf("unable to create log from entry hash: %w", ctxErr)
+				return
+			}
+
 			b.recalculateReplicationStatus(h.GetClock().GetTime())
 
 			span.AddEvent("store-head-loaded")
